@@ -209,9 +209,9 @@ def check_order_confined(ctx, lib):
     allowed = {
         "variable::Variable::compare": "behind the number gate (ordering arms)",
         "<functions::SortFn as functions::Function>::evaluate": "sort: argument validated homogeneous",
-        "<functions::SortByFn as functions::Function>::evaluate::{closure#2}": "sort_by comparator on type-checked keys",
-        "<functions::MaxFn as functions::Function>::evaluate::{closure#1}": "max: argument validated homogeneous",
-        "<functions::MinFn as functions::Function>::evaluate::{closure#1}": "min: argument validated homogeneous",
+        "<functions::SortByFn as functions::Function>::evaluate": "sort_by comparator on type-checked keys",
+        "<functions::MaxFn as functions::Function>::evaluate": "max: argument validated homogeneous",
+        "<functions::MinFn as functions::Function>::evaluate": "min: argument validated homogeneous",
         "<functions::MaxByFn as functions::Function>::evaluate": "max_by on type-checked keys",
         "<functions::MinByFn as functions::Function>::evaluate": "min_by on type-checked keys",
         "<variable::Variable as std::cmp::PartialOrd>::partial_cmp": "the order's own definition",
@@ -222,20 +222,18 @@ def check_order_confined(ctx, lib):
     }
     seen = {}
     ncalls = 0
+    # (helpers inlined into their callers are analysed there; their closures belong to those callers)
     for b in lib.fn_bodies():
         for bb, t in b.calls():
             ncalls += 1
             if uses_order(t):
-                seen.setdefault(b.deff, []).append((t["callee"], t["span"]["s"]))
+                seen.setdefault(b.deff, []).append((t["callee"], t["span"]["s"], b))
     for d, sites in sorted(seen.items()):
-        ok = d in allowed
-        # sort_by's comparator closure index may change: accept any closure of SortByFn::evaluate that only calls Ord::cmp on tuple field 1
-        if not ok and d.startswith("<functions::SortByFn as functions::Function>::evaluate::{closure#"):
-            ok = True
-        if not ok and re.match(r"^<functions::(Max|Min)Fn as functions::Function>::evaluate::\{closure#\d+\}$", d):
-            ok = True
-        ctx.check(ok, rule, d, f"{d} uses the internal total order of Variable ({sorted({c for c, _ in sites})}) — " +
-                  (allowed.get(d, "allowed caller") if ok else "not an allowed caller: values of different types would compare Equal"), sites[0][1])
+        own = lib.owners(sites[0][2])
+        ok = bool(own) and own <= set(allowed)
+        why = "; ".join(sorted({allowed[x] for x in own if x in allowed}))
+        ctx.check(ok, rule, d, f"{d} (part of {sorted(own)}) uses the internal total order of Variable ({sorted({c for c, _, _ in sites})}) — " +
+                  (why if ok else "not an allowed caller: values of different types would compare Equal"), sites[0][1])
     ctx.check("variable::Variable::compare" in seen, rule, "compare-uses-order", "the ordering operators are implemented through the order inside compare (behind the gate)")
     ctx.floor(rule, len(seen), 8, "bodies using the internal order")
     ctx.analysed["calls_inspected_for_order_use"] = ncalls
